@@ -13,6 +13,7 @@ import (
 	"unicode"
 	"unicode/utf8"
 
+	"golang.org/x/net/idna"
 	"golang.org/x/text/encoding/charmap"
 	"golang.org/x/tools/go/ssa"
 )
@@ -142,7 +143,7 @@ func init() {
 			return m.regexpReplaceAll(a[0], a[1].(StrV), a[2].(StrV))
 		},
 		// ---- idna stub
-		"(*golang.org/x/net/idna.Profile).ToASCII": func(m *Machine, a []Value, _ *frame) Value { return m.idnaToASCII(a[1].(StrV)) },
+		"(*golang.org/x/net/idna.Profile).ToASCII": func(m *Machine, a []Value, _ *frame) Value { return m.idnaToASCIIRecv(a[0], a[1].(StrV)) },
 		// ---- charmap
 		"(*golang.org/x/text/encoding/charmap.Charmap).EncodeRune": func(m *Machine, a []Value, _ *frame) Value {
 			return m.charmapEncodeRune(a[0], a[1].(*Term))
@@ -175,9 +176,9 @@ func (m *Machine) intrinsic(fn *ssa.Function, args []Value, caller *frame) (Valu
 		}
 		switch path {
 		case "golang.org/x/net/idna":
-			// option constructors and idna.New inside package initialisers
+			// option constructors and idna.New inside package initialisers: mirrored natively
 			m.stats.intrinsics["idna.<opaque>"]++
-			return m.opaqueResult(fn, "idna"), true
+			return m.idnaConstruct(fn, args), true
 		}
 	}
 	if name == "unicode/utf8.RuneLen" {
@@ -797,8 +798,16 @@ func (m *Machine) idnaToASCII(s StrV) Value {
 	for i, b := range s.b {
 		out[i] = m.lowerByte(b)
 	}
-	// unconstrained error
-	e := m.newInput(0, 0)
+	// unconstrained error -- but a function of the input: the same text gets the same answer
+	var kb strings.Builder
+	for _, b := range s.b {
+		fmt.Fprintf(&kb, "%d.", b.id)
+	}
+	e, seen := m.idnaErr[kb.String()]
+	if !seen {
+		e = m.newInput(0, 0)
+		m.idnaErr[kb.String()] = e
+	}
 	if m.branch(e) {
 		return TupleV{StrV{out}, m.opaqueError("idna")}
 	}
@@ -878,3 +887,94 @@ func (m *Machine) charmapDecodeByte(recv Value, b *Term) Value {
 }
 
 var _ = fmt.Sprintf
+
+// ---- native mirror of the repository's idna profile (for concrete inputs only) ----
+
+type idnaOpt struct {
+	name string
+	arg  bool
+	has  bool
+}
+
+// idnaConstruct mirrors idna option constructors and idna.New: the options the repository's
+// source passes are recorded by name and a native profile with the same options is built, so
+// that ToASCII of a concrete string is computed by the real library instead of the stub.
+func (m *Machine) idnaConstruct(fn *ssa.Function, args []Value) Value {
+	name := fn.Name()
+	if name == "New" {
+		var opts []idna.Option
+		okAll := true
+		if len(args) == 1 {
+			if sl, ok := args[0].(SliceV); ok {
+				for i := 0; i < sl.len; i++ {
+					v := m.loadCell(sl.arr.cells[sl.off+i])
+					o, ok := v.(OpaqueV)
+					if !ok || o.kind != "idnaopt" {
+						okAll = false
+						break
+					}
+					io := o.data.(idnaOpt)
+					switch io.name {
+					case "MapForLookup":
+						opts = append(opts, idna.MapForLookup())
+					case "ValidateForRegistration":
+						opts = append(opts, idna.ValidateForRegistration())
+					case "BidiRule":
+						opts = append(opts, idna.BidiRule())
+					case "VerifyDNSLength":
+						opts = append(opts, idna.VerifyDNSLength(io.arg))
+					case "StrictDomainName":
+						opts = append(opts, idna.StrictDomainName(io.arg))
+					case "ValidateLabels":
+						opts = append(opts, idna.ValidateLabels(io.arg))
+					case "CheckHyphens":
+						opts = append(opts, idna.CheckHyphens(io.arg))
+					case "CheckJoiners":
+						opts = append(opts, idna.CheckJoiners(io.arg))
+					case "Transitional":
+						opts = append(opts, idna.Transitional(io.arg))
+					case "RemoveLeadingDots":
+						opts = append(opts, idna.RemoveLeadingDots(io.arg))
+					default:
+						okAll = false
+					}
+				}
+			} else {
+				okAll = false
+			}
+		}
+		if okAll {
+			return OpaqueV{kind: "idnaprofile", data: idna.New(opts...)}
+		}
+		return OpaqueV{kind: "idnaprofile", data: (*idna.Profile)(nil)}
+	}
+	io := idnaOpt{name: name}
+	if len(args) == 1 {
+		if t, ok := args[0].(*Term); ok && t.op == OpConst {
+			io.arg = t.k != 0
+			io.has = true
+		}
+	}
+	return OpaqueV{kind: "idnaopt", data: io}
+}
+
+func (m *Machine) idnaToASCIIRecv(recv Value, s StrV) Value {
+	if cs, ok := s.concrete(); ok {
+		o, isO := recv.(OpaqueV)
+		if !isO {
+			if p, isP := recv.(PtrV); isP && p.c != nil {
+				o, isO = p.c.v.(OpaqueV)
+			}
+		}
+		if isO && o.kind == "idnaprofile" {
+			if prof, _ := o.data.(*idna.Profile); prof != nil {
+				a, err := prof.ToASCII(cs)
+				if err != nil {
+					return TupleV{m.strConst(a), m.opaqueError("idna")}
+				}
+				return TupleV{m.strConst(a), IfaceV{}}
+			}
+		}
+	}
+	return m.idnaToASCII(s)
+}
